@@ -125,7 +125,8 @@ type c01GateExp struct {
 	mu       sync.Mutex
 	log      [][]int
 	inExport bool
-	gate     chan bool
+	atGate   bool // blocked on the gate (inExport stays true until the call returns)
+	gate     chan int // 1 = return nil, 0 = return an error, 2 = wait until the export context is done, return ctx.Err()
 	shutdown int
 }
 
@@ -137,15 +138,29 @@ func (e *c01GateExp) ExportSpans(ctx context.Context, spans []ReadOnlySpan) erro
 	e.mu.Lock()
 	e.log = append(e.log, ids)
 	e.inExport = true
+	e.atGate = true
 	e.mu.Unlock()
-	ok := <-e.gate
+	code := <-e.gate
+	e.mu.Lock()
+	e.atGate = false
+	e.mu.Unlock()
+	var err error
+	switch code {
+	case 0:
+		err = errors.New("scripted export error")
+	case 2:
+		// an exporter that gives up when its context ends (ExportTimeout / cancelled ForceFlush context)
+		select {
+		case <-ctx.Done():
+			err = ctx.Err()
+		case <-time.After(2 * time.Second):
+			err = errors.New("export context never ended")
+		}
+	}
 	e.mu.Lock()
 	e.inExport = false
 	e.mu.Unlock()
-	if !ok {
-		return errors.New("scripted export error")
-	}
-	return nil
+	return err
 }
 
 func (e *c01GateExp) Shutdown(ctx context.Context) error {
@@ -231,8 +246,14 @@ func (r *c01Run) settle(win time.Duration) string {
 }
 
 func c01RunSched(capQ, maxB int, blocking bool, ops []string, win time.Duration) []string {
-	exp := &c01GateExp{gate: make(chan bool)}
-	opts := []BatchSpanProcessorOption{WithMaxQueueSize(capQ), WithMaxExportBatchSize(maxB), WithBatchTimeout(time.Hour), WithExportTimeout(0)}
+	exp := &c01GateExp{gate: make(chan int)}
+	exportTimeout := time.Duration(0)
+	for _, op := range ops {
+		if op == "gt" {
+			exportTimeout = 10 * time.Millisecond // scripts with a `gt` op run with an export timeout
+		}
+	}
+	opts := []BatchSpanProcessorOption{WithMaxQueueSize(capQ), WithMaxExportBatchSize(maxB), WithBatchTimeout(time.Hour), WithExportTimeout(exportTimeout)}
 	if blocking {
 		opts = append(opts, WithBlocking())
 	}
@@ -242,12 +263,27 @@ func c01RunSched(capQ, maxB int, blocking bool, ops []string, win time.Duration)
 	out := []string{}
 	for _, op := range ops {
 		switch {
-		case op == "g+" || op == "g-":
+		case op == "g+" || op == "g-" || op == "gt":
 			exp.mu.Lock()
-			in := exp.inExport
+			in := exp.atGate
 			exp.mu.Unlock()
 			if in {
-				exp.gate <- (op == "g+")
+				select {
+				case exp.gate <- map[string]int{"g+": 1, "g-": 0, "gt": 2}[op]:
+				case <-time.After(time.Second):
+				}
+				if op == "gt" {
+					// the call returns when its context ends (10 ms export timeout): wait for that before observing
+					for i := 0; i < 2000; i++ {
+						exp.mu.Lock()
+						in = exp.inExport
+						exp.mu.Unlock()
+						if !in {
+							break
+						}
+						time.Sleep(time.Millisecond)
+					}
+				}
 			}
 		case op == "sp": // Shutdown parked right after it stored `stopped`
 			r.mu.Lock()
@@ -388,7 +424,7 @@ func c01RunSched(capQ, maxB int, blocking bool, ops []string, win time.Duration)
 	go func() {
 		for {
 			select {
-			case exp.gate <- true:
+			case exp.gate <- 1:
 			case <-done:
 				return
 			}
@@ -424,7 +460,11 @@ func c01GenOps(r *vRand, n int) []string {
 		case k < 14:
 			ops = append(ops, "g+")
 		case k < 15:
-			ops = append(ops, "g-")
+			if r.Intn(3) == 0 {
+				ops = append(ops, "gt")
+			} else {
+				ops = append(ops, "g-")
+			}
 		case k < 18:
 			ops = append(ops, "f"+strconv.Itoa(nextF))
 			nextF++
@@ -439,7 +479,7 @@ func c01GenOps(r *vRand, n int) []string {
 					ops = append(ops, "s")
 				}
 				if r.Intn(6) == 0 {
-					ops = append(ops, "g-")
+					ops = append(ops, vPick(r, []string{"g-", "g-", "gt"}))
 				} else {
 					ops = append(ops, "g+")
 				}
